@@ -23,11 +23,17 @@ def register(claim, not_yet):
           'Lean 4 theorems (general perfect reconstruction from PRBank for every extension, refinement both ways, un-pad rule) + exact correspondence + round-trip oracle', 'DESIGN.md §4 C02',
           'PRBank of the float wavelet tables and the 2-D/J-level composition are measured, not proved: partial.')
     claim('C03',
-          'Proved: the level-1 filter colfilter(X, prep_filt(h)) equals the reference convolution with h on the half-sample symmetric extension for every filter and column length; the stack/view '
-          'interleaving puts tree a / tree b on even / odd rows; coldfilt raises exactly when the length is not a positive multiple of 4. The quarter-shift filters, q2c orientation order and the '
-          'J-level pyramid (odd-size replication, multiple-of-4 extension) are decided by the exact Q(sqrt2) correspondence of all eight low-level filters, q2c, fwd_j1, fwd_j2plus and '
-          'DTCWTForward, and by comparing the real module with dtcwt.Transform2d on the 20 named pairs and on integer filters.' + TIE + BRK,
-          'Lean 4 refinement theorems for the level-1 filters + exact Q(sqrt2) correspondence + numpy dtcwt oracle', 'DESIGN.md §4 C03', 'level >= 2 refinement is correspondence/oracle-decided: partial.')
+          'Proved for the implementation model, for EVERY number of levels and EVERY image size with at least one row and column: DTCWTForward returns exactly the reference pyramid Spec.refForward - the '
+          'same final low-pass and the same six complex bands (15,45,75,105,135,165 degrees; real and imaginary parts) at every level, hence the same shapes (C03P.dtcwt_forward_eq_ref), through the odd-size '
+          'replication and the multiple-of-4 padding. Ingredients, each for all lengths: colfilter(X, prep_filt(h)) equals the reference convolution with h on the half-sample symmetric extension '
+          '(colfilter1_eq_ref); coldfilt equals the reference two-tree formula for every filter length, every column length that is a positive multiple of 4 and both highpass flags, and raises otherwise '
+          '(coldfilt1_eq_ref, coldfilt1_raises_iff); the library filters rows first and the reference columns first - every stage is a gather-linear column operator, and a gather-linear operator along the '
+          'columns commutes with one along the rows (alongH_alongW_comm). Spec.refForward is dtcwt.numpy.Transform2d.forward written as index formulas (explicit highpass flags where the reference derives '
+          'them from the sign of sum(ha*hb)); it is compared with the package on every run (1-D stages exactly on integers, whole pyramids on the named tables and on integer filters). The padding index helper '
+          'utils.reflect / symm_pad_1d is TRANSLATED from the source on every run and proved equal to the model index map for every index and length (C03T). Layouts, masks, channels and rounding are decided '
+          'by the exact Q(sqrt2) correspondence of all eight low-level filters, q2c, fwd_j1, fwd_j2plus and DTCWTForward, and by comparing the real module with dtcwt.Transform2d on the 20 named pairs and on integer filters.' + TIE + BRK,
+          'Lean 4 refinement theorem (implementation model = reference pyramid, every J and size) + source-translated padding helper + exact Q(sqrt2) correspondence + numpy dtcwt oracle', 'DESIGN.md §4 C03',
+          'the reference is represented by validated index formulas; rounding is measured: partial.')
     claim('C04',
           'Proved for the implementation model, for EVERY number of levels J >= 1 and EVERY image size with at least one row and column (odd sizes, sizes that are not multiples of 4 at any level, images '
           'far smaller than the filters): DTCWTInverse(DTCWTForward(x)) = x extended to even size with the original in the top-left corner (C04P.dtcwt_pr) - through the odd-size replication, the '
